@@ -44,12 +44,25 @@ def funcs_of(path):
 
 
 def report():
+    # one textfmt per instrumented binary (the harness, the CLI, rebuilt variants): counter modes may differ between them
+    import tempfile
+    import shutil
     txt = os.path.join(ROOT, "coverage", "raw.txt")
-    rc = subprocess.run("go tool covdata textfmt -i=%s -o %s" % (RAW, txt), shell=True, env=ENV, cwd=REPO,
-                        stdout=subprocess.PIPE, stderr=subprocess.STDOUT, universal_newlines=True)
-    if rc.returncode != 0:
-        print(rc.stdout)
-        sys.exit(2)
+    hashes = sorted({f.split(".")[1] for f in os.listdir(RAW) if f.startswith("covmeta.")})
+    with open(txt, "w") as out:
+        for h in hashes:
+            d = tempfile.mkdtemp(prefix="cov_")
+            for f in os.listdir(RAW):
+                if h in f:
+                    os.link(os.path.join(RAW, f), os.path.join(d, f))
+            part = os.path.join(d, "part.txt")
+            rc = subprocess.run("go tool covdata textfmt -i=%s -o %s" % (d, part), shell=True, env=ENV, cwd=REPO,
+                                stdout=subprocess.PIPE, stderr=subprocess.STDOUT, universal_newlines=True)
+            if rc.returncode == 0:
+                out.write(open(part).read())
+            else:
+                print("covdata %s: %s" % (h, rc.stdout.strip()[:200]))
+            shutil.rmtree(d)
     blocks = {}
     for ln in open(txt):
         m = re.match(r"(\S+):(\d+)\.(\d+),(\d+)\.(\d+) (\d+) (\d+)", ln)
